@@ -15,7 +15,7 @@ let hexval c = match c with
 let hexdig = "0123456789abcdef"
 
 (* positive from hex string (big-endian digits), None if zero *)
-let pos_of_hex (s : string) : positive option =
+let pos_of_hex s : positive option =
   (* collect bits msb first *)
   let bits = ref [] in
   String.iter (fun c -> let v = hexval c in
@@ -30,11 +30,11 @@ let pos_of_hex (s : string) : positive option =
         | None -> if b then Some XH else None
         | Some p -> Some (if b then XI p else XO p)) in
   build lsb_first
-let z_of_hex (s : string) : z =
+let z_of_hex s : z =
   let neg, body = if String.length s > 0 && s.[0] = '-' then true, String.sub s 1 (String.length s - 1) else false, s in
   match pos_of_hex body with None -> Z0 | Some p -> if neg then Zneg p else Zpos p
 let n_of_hex s = match pos_of_hex s with None -> N0 | Some p -> Npos p
-let hex_of_pos (p : positive) : string =
+let hex_of_pos (p : positive) =
   let rec bits acc = function XH -> true :: acc | XO q -> bits (false :: acc) q | XI q -> bits (true :: acc) q in
   (* bits returns msb-first list *)
   let l = bits [] p in
@@ -57,11 +57,11 @@ let show_bool b = if b then "T" else "F"
 let byte_of_int (i : int) : byte = drv_byte_of_N (n_of_int i)
 let int_of_byte (b : byte) : int = int_of_n (drv_byte_to_N b)
 let byte_tab : byte array = Array.init 256 byte_of_int
-let bytes_of_hex (s : string) : byte list =
+let bytes_of_hex s : byte list =
   let n = String.length s / 2 in
   let rec go i acc = if i < 0 then acc else go (i - 1) (byte_tab.(hexval s.[2*i] * 16 + hexval s.[2*i+1]) :: acc) in
   go (n - 1) []
-let hex_of_bytes (l : byte list) : string =
+let hex_of_bytes (l : byte list) =
   let b = Buffer.create 64 in
   List.iter (fun x -> let v = int_of_byte x in Buffer.add_char b hexdig.[v lsr 4]; Buffer.add_char b hexdig.[v land 15]) l;
   Buffer.contents b
@@ -78,27 +78,27 @@ let show_exn = function
 let show_outcome f = function Ret a -> f a | Raise e -> "!" ^ show_exn e | OutOfFuel -> "!OUT_OF_FUEL"
 
 (* argument parsing: tokens "x<hex>", "i<hex>", "T"/"F" *)
-let arg_bytes (t : string) : byte list =
+let arg_bytes t : byte list =
   if String.length t = 0 || t.[0] <> 'x' then failwith ("arg_bytes " ^ t) else bytes_of_hex (String.sub t 1 (String.length t - 1))
-let arg_z (t : string) : z =
+let arg_z t : z =
   if String.length t = 0 || t.[0] <> 'i' then failwith ("arg_z " ^ t) else z_of_hex (String.sub t 1 (String.length t - 1))
-let arg_n (t : string) : n = match arg_z t with Z0 -> N0 | Zpos p -> Npos p | Zneg _ -> failwith "arg_n negative"
-let arg_int (t : string) : int =
+let arg_n t : n = match arg_z t with Z0 -> N0 | Zpos p -> Npos p | Zneg _ -> failwith "arg_n negative"
+let arg_int t : int =
   if String.length t = 0 || t.[0] <> 'i' then failwith ("arg_int " ^ t) else int_of_string ("0x" ^ String.sub t 1 (String.length t - 1))
 let arg_nat t = nat_of_int (arg_int t)
 let arg_bool t = (t = "T")
 (* list argument: "[a,b,c]" with no spaces; elements parsed by f; "[]" empty *)
-let arg_list f (t : string) =
+let arg_list f t =
   let n = String.length t in
   if n < 2 || t.[0] <> '[' || t.[n-1] <> ']' then failwith ("arg_list " ^ t)
   else if n = 2 then [] else List.map f (String.split_on_char ',' (String.sub t 1 (n - 2)))
 
 (* oracle callback: print "?name hex", read hex answer *)
-let oracle (name : string) (data : byte list) : byte list =
+let oracle name (data : byte list) : byte list =
   print_string ("?" ^ name ^ " " ^ hex_of_bytes data ^ "\n"); flush stdout;
   let line = input_line stdin in bytes_of_hex (String.trim line)
 
-let main_loop (dispatch : string -> string list -> string) =
+let main_loop dispatch =
   (try
     while true do
       let line = input_line stdin in
